@@ -316,12 +316,12 @@ func judge(c *fw.Ctx, cache map[string]*loaded, cs *Case) {
 	// rotation law for the address matchers: the range is given as an environment placeholder; an instance provisioned
 	// when the variable had another value exists; the variable changes and the same configuration text is provisioned
 	// again: the new instance works with the new value.
-	if (cs.Matcher == "remote_ip" || cs.Matcher == "local_ip") && v != "panic" && cs.Env == nil && fw.Hash("rotate", key, cs.InputHex)%4 == 0 {
-		if cfg2, env := placeholderiseFixed(cs.Matcher, cs.Config, "VERIF_C14_ROTATING"); env != "" {
+	if _, rot := rotating[cs.Matcher]; rot && v != "panic" && cs.Env == nil && fw.Hash("rotate", key, cs.InputHex)%4 == 0 {
+		if cfg2, env, earlier := placeholderiseFixed(cs.Matcher, cs.Config, "VERIF_C14_ROTATING"); env != "" {
 			var vNew mt.Verdict = v
 			func() {
 				defer func() { _ = recover() }()
-				_ = os.Setenv("VERIF_C14_ROTATING", "203.0.113.77/32")
+				_ = os.Setenv("VERIF_C14_ROTATING", earlier)
 				a, err := mt.Load(cs.Matcher, cfg2)
 				if err != nil {
 					return
@@ -337,8 +337,8 @@ func judge(c *fw.Ctx, cache map[string]*loaded, cs *Case) {
 			}()
 			c.Obs("rotation_evaluations", 1)
 			if vNew != v {
-				c.Violation(fmt.Sprintf("C14 %s: a range given as {env.NAME} keeps an earlier value of the variable after the configuration was provisioned again", cs.Matcher),
-					fmt.Sprintf("matcher %s with config %s (first range through {env.VERIF_C14_ROTATING}, which was 203.0.113.77/32 when an earlier instance was provisioned and is %s now): %s with the literal, %s through the placeholder", cs.Matcher, cs.Config, env, v, vNew), cs)
+				c.Violation(fmt.Sprintf("C14 %s: an option given as {env.NAME} keeps an earlier value of the variable after the configuration was provisioned again", cs.Matcher),
+					fmt.Sprintf("matcher %s with config %s (option %s through {env.VERIF_C14_ROTATING}, which was %q when an earlier instance was provisioned and is %q now): %s with the literal, %s through the placeholder", cs.Matcher, cs.Config, rotating[cs.Matcher][0], earlier, env, v, vNew), cs)
 			}
 		}
 	}
